@@ -16,6 +16,7 @@ mod eng_cache;
 mod eng_load;
 mod eng_conc;
 mod eng_bytes;
+mod eng_watch;
 
 use common::*;
 use std::{fs, io::Write, path::PathBuf};
@@ -27,6 +28,7 @@ fn engines() -> Vec<Box<dyn Engine>> {
     v.push(Box::new(eng_load::LoadEngine::default()));
     v.push(Box::new(eng_conc::ConcEngine::default()));
     v.push(Box::new(eng_bytes::BytesEngine::default()));
+    v.push(Box::new(eng_watch::WatchEngine::default()));
     v
 }
 
